@@ -220,6 +220,35 @@ def _task(task):
                                         observed=obs[1][7:] if obs[0] == "parsed" else obs[:3], note=why)
         except BaseException as e:  # noqa: BLE001
             t.violation({"kind": "sweep-aborted", "exc": type(e).__name__}, {"variant": task["idx"][j], "label": label}, observed=str(e)[:200])
+        # the (used) definition edited in place: another default calibrator on the encoding / other labels in the enumeration.  What the
+        # public attributes say afterwards is what must be decoded.
+        if task["via"] == "xml" and (label.startswith(("poly:u5", "spline0:u5", "spline1x:s5")) or label in ("enum-u3:plain", "enum-s4:plain")) and j % 2 == 0:
+            try:
+                import dataclasses
+                from space_packet_parser.xtce import calibrators as _cal
+                lib_pt = defn.parameter_types[f"T{j}"]
+                spec_pt = next(p for p in doc.ptypes if p.name == f"T{j}")
+                if label.startswith("enum"):
+                    first = next(iter(lib_pt.enumeration))
+                    lib_pt.enumeration[6 if label.startswith("enum-u3") else -2] = "ADDED"
+                    lib_pt.enumeration[first] = "RELABELLED"
+                    new_enum = tuple((k, "RELABELLED" if k == first else lab) for k, lab in spec_pt.enum) + ((6 if label.startswith("enum-u3") else -2, "ADDED"),)
+                    spec2 = dataclasses.replace(spec_pt, enum=new_enum)
+                else:
+                    lib_pt.encoding.default_calibrator = _cal.PolynomialCalibrator([_cal.PolynomialCoefficient(3.0, 0), _cal.PolynomialCoefficient(2.0, 1)])
+                    spec2 = dataclasses.replace(spec_pt, enc=dataclasses.replace(spec_pt.enc, default_cal=Poly(((3.0, 0), (2.0, 1)))))
+                doc2 = dataclasses.replace(doc, ptypes=tuple(spec2 if p.name == spec2.name else p for p in doc.ptypes))
+                for v in pats:
+                    bits = "00" + format(v, f"0{w}b") + "10100101" + "0" * tail
+                    pkt = docs.packet_for(j, bits)
+                    why = compare_outcome(decode_packet(doc2, pkt), parse_one(defn, pkt))
+                    t.evals += 1
+                    if why:
+                        t.violation({"kind": "derivation-mismatch", "family": label.split(":")[0], "after": "definition edited in place"},
+                                    {"variant": task["idx"][j], "label": label, "raw_pattern": v, "packet": pkt.hex(), "via": "xml+edited", "tier": task["tier"]}, note=why)
+                        break
+            except BaseException as e:  # noqa: BLE001
+                t.violation({"kind": "sweep-aborted", "exc": type(e).__name__, "part": "edited"}, {"variant": task["idx"][j], "label": label}, observed=str(e)[:200])
         t.nontrivial += 1
         t.programs += 1
     if task["idx"] and task["idx"][0] == 0:
@@ -348,9 +377,10 @@ def replay(case):
             if v["case"]["query"] == case["query"]:
                 return v
         return None
-    t = _task({"idx": [case["variant"]], "tier": case.get("tier", "thorough"), "via": case.get("via", "xml")})
+    edited = case.get("via") == "xml+edited"
+    t = _task({"idx": [case["variant"]], "tier": case.get("tier", "thorough"), "via": "xml" if edited else case.get("via", "xml")})
     for v in t.violations:
-        if v["case"].get("sel") == case.get("sel") and v["case"].get("raw_pattern") == case.get("raw_pattern"):
+        if v["case"].get("sel") == case.get("sel") and v["case"].get("raw_pattern") == case.get("raw_pattern") and (v["case"].get("via") == "xml+edited") == edited:
             return v
     return None
 
